@@ -44,9 +44,21 @@ type scen struct {
 	user   bool // routeByHTTPUser set
 	sub    bool // a subdomain in addition to the custom domains
 	rnd    bool
+	name   string // the subject's proxy name (an arbitrary string: blanks, case, non-ASCII)
+	nb     bool   // a neighbour of the subject on the same domain, differing only by routeByHTTPUser (http, tcpmux)
 }
 
 func (s scen) label() string { return s.kind + ":" + s.path }
+
+// subject names: the property quantifies over proxy names as arbitrary strings
+var subjNames = []string{"subj", "Web ", " lead", "WEB", "we b", "w\u00e9b", "subj.x", "Subj"}
+
+func (s scen) subjName() string {
+	if s.name == "" {
+		return "subj"
+	}
+	return s.name
+}
 
 func baseKind(kind string) string {
 	switch kind {
@@ -70,7 +82,7 @@ func needsPort(kind string) bool { return kind == "tcp" || kind == "udp" || kind
 
 // subjectReq: the subject proxy "subj" of a scenario; port = its explicit remote port (tcp, udp, tcp group)
 func subjectReq(sc scen, port int) preq {
-	q := preq{name: "subj", kind: baseKind(sc.kind), bw: sc.bw}
+	q := preq{name: sc.subjName(), kind: baseKind(sc.kind), bw: sc.bw}
 	locs := [][]string{nil, {"/x"}, {"/x", "/y"}}[sc.locs%3]
 	switch sc.kind {
 	case "tcp", "udp":
@@ -151,6 +163,7 @@ func installGate(at, key string) *gate {
 // runScen drives one scenario on w.
 func runScen(w *world, g *hx.Gen, sc scen) {
 	proto := "tcp"
+	subjName := sc.subjName()
 	mustOK := func(code int, key string) bool {
 		if w.broken {
 			return false
@@ -183,6 +196,14 @@ func runScen(w *world, g *hx.Gen, sc scen) {
 	subj := subjectReq(sc, sport)
 	if subj.kind == "udp" {
 		proto = "udp"
+	}
+	if sc.nb && (sc.kind == "http" || sc.kind == "tcpmux") {
+		// same domain (and locations) as the subject's first route, another routeByHTTPUser: its route must
+		// survive whatever happens to the subject
+		nb := preq{kind: sc.kind, name: "nb", domains: []string{subj.domains[0]}, locs: subj.locs, user: "nbuser"}
+		if !mustOK(w.newProxy(s1, nb, npOpts{}), "setup-refused:"+sc.label()) {
+			return
+		}
 	}
 	if sc.grpBy && isGrp(sc.kind) {
 		gby := subj
@@ -282,7 +303,13 @@ func runScen(w *world, g *hx.Gen, sc scen) {
 			return
 		}
 		serve(s2, subj)
-		w.closeProxy(s2, "subj")
+		if sc.kind == "xtcp" {
+			// a visitor's hole-punching request is in flight: the proxy's goroutine has taken the session id and
+			// waits for a work connection of its owner (nobody answers).  Close must unregister the NAT-hole
+			// client at once all the same.
+			w.visitorInFlight(s1, subjName)
+		}
+		w.closeProxy(s2, subjName)
 		w.pair(iPre, w.last())
 		checkServed("CloseProxy")
 		checkPortFree(subj, code)
@@ -345,14 +372,14 @@ func runScen(w *world, g *hx.Gen, sc scen) {
 
 	// ---------- registrations that fail, then the corrected one ----------
 	case "f:exists":
-		rival := preq{kind: "tcp", name: "subj", port: w.pick()}
+		rival := preq{kind: "tcp", name: subjName, port: w.pick()}
 		if !mustOK(w.newProxy(s1, rival, npOpts{}), "setup-refused:"+sc.label()) {
 			return
 		}
 		iPre := w.last()
 		expect(w.newProxy(s2, subj, npOpts{}), -11)
 		w.pair(iPre, w.last())
-		w.closeProxy(s1, "subj")
+		w.closeProxy(s1, subjName)
 		if !mustOK(w.newProxy(s2, subj, npOpts{}), "reregister-refused:"+sc.label()) {
 			return
 		}
@@ -548,7 +575,7 @@ func runScen(w *world, g *hx.Gen, sc scen) {
 		// runs inside the dispatcher's read loop, so the teardown can only start after the registration has
 		// finished and stored its proxy: model = the registration (no reply can be read), then the session end.
 		s := w.peers[s2]
-		gt := installGate("ctl.regproxy.after_exist", "subj")
+		gt := installGate("ctl.regproxy.after_exist", subjName)
 		released := false
 		rel := func() {
 			if !released {
@@ -595,7 +622,7 @@ func runScen(w *world, g *hx.Gen, sc scen) {
 		// session 2's registration is held between Run and Add while session 1 takes the name
 		iPre := w.last()
 		s := w.peers[s2]
-		gt := installGate("ctl.regproxy.after_run", "subj")
+		gt := installGate("ctl.regproxy.after_run", subjName)
 		released := false
 		rel := func() {
 			if !released {
@@ -627,7 +654,7 @@ func runScen(w *world, g *hx.Gen, sc scen) {
 		// proxy of the same kind and name is refused by the keyed table itself (no model step: the
 		// model's registration is atomic; nothing of this attempt may remain)
 		if sc.kind == "stcp" || sc.kind == "sudp" || sc.kind == "xtcp" {
-			twin := preq{kind: sc.kind, name: "subj"}
+			twin := preq{kind: sc.kind, name: subjName}
 			resp, err := w.peers[s1].p.NewProxy(twin.toMsg())
 			want := -14
 			if sc.kind == "xtcp" {
@@ -642,7 +669,7 @@ func runScen(w *world, g *hx.Gen, sc scen) {
 			}
 			w.rec.count(fmt.Sprintf("twin:%s:%d", sc.kind, respCode(twin, resp)))
 		}
-		rival := preq{kind: "tcp", name: "subj", port: w.pick()}
+		rival := preq{kind: "tcp", name: subjName, port: w.pick()}
 		resp1, err := w.peers[s1].p.NewProxy(rival.toMsg())
 		if err != nil {
 			w.harnessFail("no reply to the rival registration")
@@ -666,19 +693,20 @@ func runScen(w *world, g *hx.Gen, sc scen) {
 		if subj.port > 0 {
 			checkPortFree(subj, subj.port)
 		}
-		w.closeProxy(s1, "subj")
+		w.closeProxy(s1, subjName)
 		w.pair(iPre, w.last())
 		if !mustOK(w.newProxy(s2, finalReq, npOpts{}), "reregister-refused:"+sc.label()) {
 			return
 		}
 	case "f:existrace":
-		// NOT in the default matrix (-extra existrace): session 2's registration is held between Exist and
-		// Run while session 1 registers the same kind and name completely; session 2's Run then meets the
-		// occupied listener table (-14 / -15).  The model's registration is atomic and answers EExists
-		// for any serialisation, so this scenario is a known disagreement by construction.
+		// session 2's registration is held between Exist and Run while session 1 registers the same kind and
+		// name completely; session 2's Run then meets the occupied listener table (-14 / -15).  The model's
+		// registration is atomic and answers EExists for this serialisation: the loser's RESULT is therefore
+		// recorded as "not observed" (checked here instead), the STATE after it is compared as always: the
+		// refused duplicate must leave the incumbent's listener entry alone.
 		iPre := w.last()
 		s := w.peers[s2]
-		gt := installGate("ctl.regproxy.after_exist", "subj")
+		gt := installGate("ctl.regproxy.after_exist", subjName)
 		released := false
 		rel := func() {
 			if !released {
@@ -698,7 +726,7 @@ func runScen(w *world, g *hx.Gen, sc scen) {
 			w.harnessFail("the gated registration did not reach ctl.regproxy.after_exist")
 			return
 		}
-		twin := preq{kind: subj.kind, name: "subj"}
+		twin := preq{kind: subj.kind, name: subjName}
 		resp1, err := w.peers[s1].p.NewProxy(twin.toMsg())
 		if err != nil {
 			w.harnessFail("no reply to the twin registration")
@@ -717,13 +745,16 @@ func runScen(w *world, g *hx.Gen, sc scen) {
 			want = -15
 		}
 		expect(code2, want)
+		if code2 != want && code2 != -11 {
+			w.fail("existrace-loser-not-refused:"+sc.kind, fmt.Sprintf("the registration that lost the Exist/Run race was answered with code %d", code2))
+		}
 		if !w.sync(s) || !w.sync(w.peers[s1]) {
 			w.harnessFail("ping round trip failed")
 			return
 		}
 		w.recordNew(s1, twin, respCode(twin, resp1), resp1.Error, true, noObs, "")
-		w.recordNew(s2, subj, code2, m.(*msg.NewProxyResp).Error, true, w.observe(), "")
-		w.closeProxy(s1, "subj")
+		w.recordNew(s2, subj, notObs, m.(*msg.NewProxyResp).Error, true, w.observe(), "")
+		w.closeProxy(s1, subjName)
 		w.pair(iPre, w.last())
 		if !mustOK(w.newProxy(s2, finalReq, npOpts{}), "reregister-refused:"+sc.label()) {
 			return
@@ -737,7 +768,7 @@ func runScen(w *world, g *hx.Gen, sc scen) {
 	if !w.checkTCPBystander(s1, "by", by.port) {
 		w.fail("bystander-dead:"+sc.kind, "a user connection to the bystander's port is no longer handed to the bystander ("+sc.path+")")
 	}
-	w.closeProxy(subjSess, "subj")
+	w.closeProxy(subjSess, subjName)
 	if subjSess != s1 {
 		w.end(subjSess, "CDrop")
 	}
@@ -750,8 +781,8 @@ func runScen(w *world, g *hx.Gen, sc scen) {
 
 // ---------- the scenario matrix ----------
 
-// withExistRace: -extra existrace adds the scenario the model cannot follow (see "f:existrace")
-var withExistRace = false
+// withExistRace: the Exist/Run race of two stcp / sudp / xtcp registrations of one name (see "f:existrace")
+var withExistRace = true
 
 func pathsFor(kind string) []string {
 	ps := []string{"close", "drop", "dropearly", "dropinflight", "replace", "heartbeat", "f:exists", "f:addrace"}
@@ -843,6 +874,8 @@ func matrix(seed int64, tier string) []scen {
 			if endsSession(p) && k != "udp" && !(k == "http") {
 				sc.pool = 2 + v%2
 			}
+			sc.name = subjNames[(ki*3+pi)%len(subjNames)]
+			sc.nb = k == "http" || k == "tcpmux"
 			per[p] = append(per[p], normalise(sc))
 		}
 	}
@@ -883,7 +916,8 @@ func randomScen(g *hx.Gen, tier string) scen {
 		p = ps[g.Intn(len(ps))]
 	}
 	sc := scen{kind: k, path: p, rnd: true, own: g.Chance(0.6), grpBy: g.Chance(0.5), bw: g.Chance(0.3), serve: g.Chance(0.3),
-		port0: g.Chance(0.4), locs: g.Intn(3), user: g.Chance(0.25), sub: g.Chance(0.3), extras: 1 + g.Intn(2)}
+		port0: g.Chance(0.4), locs: g.Intn(3), user: g.Chance(0.25), sub: g.Chance(0.3), extras: 1 + g.Intn(2),
+		name: subjNames[g.Intn(len(subjNames))], nb: g.Chance(0.6)}
 	if g.Chance(0.5) {
 		sc.pool = 1 + g.Intn(3)
 	}
